@@ -63,7 +63,9 @@ fn parse_match(it: &mut LexIterator) -> ParseResult {
 }
 
 pub fn parse_match_cases(it: &mut LexIterator) -> ParseResult<Vec<AST>> {
+    it.eat_while(&Token::NL);
     let start = it.eat(&Token::Indent, "match cases")?;
+    it.eat_while(&Token::NL);
     let mut cases = vec![];
     it.peek_while_not_token(&Token::Dedent, &mut |it, _| {
         cases.push(*it.parse(&parse_match_case, "match case", start)?);
